@@ -216,7 +216,7 @@ func runQual() {
 						one(s, true)
 					}
 				}
-				emit(ev{"ev": "end", "c": sc.ID, "mustreject": qc.mustReject})
+				emit(ev{"ev": "end", "c": sc.ID, "mustreject": qc.mustReject, "checksmatter": false, "wantchecks": [][2]string{}})
 				sc.Last = line
 			}
 		}
